@@ -61,7 +61,7 @@ def is_down(positive, d, ctx):
     return sum(1 for v in vals if v > 0) > len(vals) / 2
 
 
-def body(ctx, n, positive, with_bounds, dimcoord, data_pos, pd, d2s, depth_mode, via, second=False):
+def body(ctx, n, positive, with_bounds, dimcoord, data_pos, pd, d2s, depth_mode, via, second=False, bounds_coords=False):
     from emsarray.operations import depth as depth_ops
     ds, dim, d, b, temp, dims = build(ctx, n, positive, with_bounds, dimcoord, data_pos, depth_mode, second)
     if via == 'convention':
@@ -70,6 +70,8 @@ def body(ctx, n, positive, with_bounds, dimcoord, data_pos, pd, d2s, depth_mode,
         geo_ds = builders.cf1d(1, 2)
         ds = ds.assign_coords({n: geo_ds[n].variable for n in ('lat', 'lon')})
         ds.attrs.update(geo_ds.attrs)
+    if bounds_coords and with_bounds:
+        ds = ds.set_coords('zc_bnds')      # the bounds variable held as an xarray coordinate
     names = ['zc', 'zalt'] if second else ['zc']
     if second and n % 2:
         names = names[::-1]
@@ -197,6 +199,13 @@ def cases(tier):
                            dict(n=n, positive=positive, with_bounds=with_bounds, dimcoord=dimcoord, data_pos=k % 3,
                                 pd=pd, d2s=d2s, depth_mode='symbolic', via='function'),
                            patches=depthcommon.patches, max_paths=200)
+    # bounds held as coordinates
+    for positive in ('up', 'down'):
+        for (pd, d2s) in opts:
+            yield Case(f'sym:{positive}:pd{pd}:d2s{d2s}:b1:n2:bounds-as-coordinates', body,
+                       dict(n=2, positive=positive, with_bounds=True, dimcoord=(positive == 'up'), data_pos=0,
+                            pd=pd, d2s=d2s, depth_mode='symbolic', via='function', bounds_coords=True),
+                       patches=depthcommon.patches, max_paths=200)
     # two depth coordinates along one dimension, normalised in one call
     for positive in ('up', 'down'):
         for (pd, d2s) in opts:
